@@ -31,8 +31,8 @@ ATTRS = ['yaml_constructors', 'yaml_multi_constructors', 'yaml_representers', 'y
          'yaml_implicit_resolvers', 'yaml_path_resolvers']
 LOADER_ROOTS = ['SafeLoader', 'FullLoader', 'Loader', 'BaseLoader', 'UnsafeLoader', 'CSafeLoader', 'CLoader']
 DUMPER_ROOTS = ['SafeDumper', 'Dumper', 'BaseDumper', 'CSafeDumper', 'CDumper']
-LOADER_OPS = ['cons', 'mcons', 'ires', 'pres', 'yobj', 'mod_cons', 'mod_mcons', 'mod_ires', 'defsub']
-DUMPER_OPS = ['rep', 'mrep', 'ires', 'pres', 'yobj', 'mod_rep', 'mod_mrep', 'defsub']
+LOADER_OPS = ['cons', 'mcons', 'ires', 'pres', 'yobj', 'yobj_sub', 'mod_cons', 'mod_mcons', 'mod_ires', 'defsub']
+DUMPER_OPS = ['rep', 'mrep', 'ires', 'pres', 'yobj', 'yobj_sub', 'mod_rep', 'mod_mrep', 'defsub']
 NCLS = 4     # R, A, B, AA
 
 
@@ -276,7 +276,7 @@ def run_history(root_name, hist):
                 X.add_multi_representer(s.MB, s.mrep)
                 model.add(X, 'yaml_multi_representers', s.MB, s.mrep)
                 regs.append(('mrep', X))
-            elif op == 'yobj':
+            elif op in ('yobj', 'yobj_sub'):
                 if is_loader:
                     yl = [X, lattice[(ti + 1) % NCLS]] if variant % 2 else X
                     yd = yaml.Dumper
@@ -289,6 +289,11 @@ def run_history(root_name, hist):
                     regs.append(('yobj', L))
                 model.add(yd, 'yaml_representers', s.Y, s.Y.to_yaml)
                 regs.append(('yobj_rep', yd))
+                if op == 'yobj_sub':
+                    # a subclass that only inherits the tag registers nothing, wherever its yaml_loader / yaml_dumper point
+                    other = lattice[(ti + 2) % NCLS]
+                    body = {} if variant % 2 == 0 else ({'yaml_loader': other} if is_loader else {'yaml_dumper': other})
+                    s.Ysub = yaml.YAMLObjectMetaclass('Ysub%d' % s.i, (s.Y,), body)
             elif op in ('mod_cons', 'mod_mcons', 'mod_ires'):
                 targets = [X] if variant % 2 else [yaml.Loader, yaml.FullLoader, yaml.UnsafeLoader]
                 kw = {'Loader': X} if variant % 2 else {}
@@ -448,10 +453,10 @@ def roots():
 def all_ops(is_loader, yobj_ok=True):
     ops = []
     for op in (LOADER_OPS if is_loader else DUMPER_OPS):
-        if op == 'yobj' and not yobj_ok:
+        if op in ('yobj', 'yobj_sub') and not yobj_ok:
             continue
         for t in range(NCLS):
-            variants = (0, 1) if op in ('ires', 'yobj') or op.startswith('mod_') else (0,)
+            variants = (0, 1) if op in ('ires', 'yobj', 'yobj_sub') or op.startswith('mod_') else (0,)
             for v in variants:
                 if op.startswith('mod_') and v == 0 and t != 0:
                     continue        # without Loader=/Dumper= the target is irrelevant
